@@ -124,9 +124,11 @@ def check_history(case, stats):
                 raise Violation(case, "document #%d of the history was handed over as a scanner object; parsing that drained scanner again with the used parser gives %r, with fresh instances %r" % (
                     i, drained, drained_want))
         elif case.get("clones") and own:
-            # prototype / clone pattern: every document gets a copy.copy() of the one parser and of the one matcher (odd documents use the
+            # prototype / clone pattern: every document gets a copy (copy.copy / copy.deepcopy / pickle round trip) of the one parser and of the one matcher (odd documents use the
             # prototypes themselves); copies share whatever the originals hold by reference
-            r = gh.parse(text, parser=parser if i % 2 else copy.copy(parser), matcher=matcher if i % 2 else copy.copy(matcher), stop=stop)
+            import pickle
+            how = [copy.copy, copy.deepcopy, lambda o: pickle.loads(pickle.dumps(o))][(i // 2 + len(items)) % 3]
+            r = gh.parse(text, parser=parser if i % 2 else how(parser), matcher=matcher if i % 2 else how(matcher), stop=stop)
         else:
             r = gh.parse(text, parser=parser, matcher=matcher, stop=stop) if own else parse_default(parser, text, stop)
         if not mixed and r[0] != "ok" and not stop and i + 1 < len(items):
@@ -386,14 +388,14 @@ class GatedScanner(gh.TokenScanner):
         return super().read()
 
 
-def run_schedule(texts, dflts, schedule):
+def run_schedule(texts, dflts, schedule, formatter=False):
     n = len(texts)
     gate = Gate(n)
     results = [None] * n
 
     def work(i):
         try:
-            results[i] = norm_result(gh.parse(GatedScanner(texts[i], gate, i), dflts[i]))
+            results[i] = norm_result(gh.parse(GatedScanner(texts[i], gate, i), dflts[i], builder=gh.TokenFormatterBuilder() if formatter else None))
         except BaseException as e:  # noqa
             results[i] = ("crash", repr(e))
         finally:
@@ -444,8 +446,9 @@ def check_schedule(case, stats):
     dflts = [SCHED_DOCS[n][1] if n in SCHED_DOCS else "en" for n in names]
     if any(gh.names_existing_path(t) for t in texts):
         return
-    solo = [fresh(t, d, False) for t, d in zip(texts, dflts)]
-    got, switches = run_schedule(texts, dflts, case["schedule"])
+    fmt = bool(case.get("formatter"))  # token-listing parsers (TokenFormatterBuilder) instead of AST-building ones
+    solo = [norm_result(gh.parse(t, d, builder=gh.TokenFormatterBuilder())) if fmt else fresh(t, d, False) for t, d in zip(texts, dflts)]
+    got, switches = run_schedule(texts, dflts, case["schedule"], formatter=fmt)
     stats.case(case, switches >= 2, sample={"docs": [n[:30] for n in names], "schedule": case["schedule"]}, labels=["parsers=%d" % len(names)])
     for i, (g, s) in enumerate(zip(got, solo)):
         if g != s:
@@ -507,7 +510,7 @@ def unit_schedules(a):
                 sched = [1] * (rx + ry)
                 for p in pos:
                     sched[p] = 0
-                yield {"sub": "schedule", "docs": [x, y], "schedule": sched}
+                yield {"sub": "schedule", "docs": [x, y], "schedule": sched, "formatter": n % 3 == 0}
     sweep(stats, gen(), check_schedule)
     return stats
 
@@ -515,7 +518,7 @@ def unit_schedules(a):
 def g_schedule(s):
     k = s.rng(2, 3)
     docs = [s.choice(sorted(SCHED_DOCS)) if s.int(3) else noisy.g_noisy(s)[0] for _ in range(k)]
-    return {"sub": "schedule", "docs": docs, "schedule": [s.int(k) for _ in range(s.rng(4, 40))]}
+    return {"sub": "schedule", "docs": docs, "schedule": [s.int(k) for _ in range(s.rng(4, 40))], "formatter": s.int(3) == 0}
 
 
 def unit_schedules_sampled(a):
